@@ -94,15 +94,78 @@ func (r *Run) CheckServerDocNow(ctx context.Context, ref *RefReplica, step int) 
 	}
 }
 
+// snapRecDB records what one BuildInternalDocForServerSeq asks the storage layer: the answer of
+// the closest-snapshot lookup (if it happens) and the range of changes it reads.
+type snapRecDB struct {
+	database.Database
+	lookups []int64
+	ranges  [][2]int64
+}
+
+func (d *snapRecDB) FindClosestSnapshotInfo(ctx context.Context, k types.DocRefKey, serverSeq int64, include bool) (*database.SnapshotInfo, error) {
+	info, err := d.Database.FindClosestSnapshotInfo(ctx, k, serverSeq, include)
+	if err == nil && info != nil {
+		d.lookups = append(d.lookups, info.ServerSeq)
+	}
+	return info, err
+}
+
+func (d *snapRecDB) FindChangesBetweenServerSeqs(ctx context.Context, k types.DocRefKey, from, to int64) ([]*change.Change, error) {
+	d.ranges = append(d.ranges, [2]int64{from, to})
+	return d.Database.FindChangesBetweenServerSeqs(ctx, k, from, to)
+}
+
+func optNat(ok bool, v int64) string {
+	if !ok {
+		return "None"
+	}
+	return fmt.Sprintf("(Some %d)", v)
+}
+
+// recordedBuild runs BuildInternalDocForServerSeq with the storage calls recorded and exports
+// the observation as a correspondence case for Cache/SnapCache.v's plan.
+func (r *Run) recordedBuild(ctx context.Context, info *database.DocInfo, seq int64) (*document.InternalDocument, error) {
+	be := r.S.Be
+	var before int64
+	cached, had := be.Cache.Snapshot.Peek(info.RefKey())
+	if had {
+		before = cached.Checkpoint().ServerSeq
+	}
+	rec := &snapRecDB{Database: be.DB}
+	be.DB = rec
+	d, err := packs.BuildInternalDocForServerSeq(ctx, be, info, seq)
+	be.DB = rec.Database
+	if err != nil {
+		return nil, err
+	}
+	var after int64
+	c2, has2 := be.Cache.Snapshot.Peek(info.RefKey())
+	if has2 {
+		after = c2.Checkpoint().ServerSeq
+	}
+	if len(rec.lookups) <= 1 && len(rec.ranges) == 1 && len(r.SnapCases) < 40 {
+		var lk int64
+		if len(rec.lookups) == 1 {
+			lk = rec.lookups[0]
+		}
+		r.SnapCases = append(r.SnapCases, fmt.Sprintf("KSnapBuild %s %d %s %d %d %d %s",
+			optNat(had, before), seq, optNat(len(rec.lookups) == 1, lk), rec.ranges[0][0], rec.ranges[0][1], info.ServerSeq, optNat(has2, after)))
+	} else if len(rec.ranges) != 1 || len(rec.lookups) > 1 {
+		r.problem("snapshot-build-plan", -1, "BuildInternalDocForServerSeq(%d): %d snapshot lookups, %d change reads (want <=1, 1)", seq, len(rec.lookups), len(rec.ranges))
+	}
+	return d, nil
+}
+
 // checkCacheVsStore (C20): the document built from whatever the snapshot cache holds now, again
-// from the warm cache, and again after the caller mutated its copy, must be the document built
+// from the warm cache, again after the caller mutated its copy, and at an OLDER sequence while
+// the cache holds the head (the guard on the cached entry's sequence), must be the document built
 // from the store alone (cache purged: closest stored snapshot + stored changes).
 func (r *Run) checkCacheVsStore(ctx context.Context, info *database.DocInfo, step int) {
 	be := r.S.Be
 	var got []string
 	modes := []string{"as-is", "warm", "after-caller-mutation"}
 	for k := range modes {
-		d, err := packs.BuildInternalDocForServerSeq(ctx, be, info, info.ServerSeq)
+		d, err := r.recordedBuild(ctx, info, info.ServerSeq)
 		if err != nil {
 			r.problem("server-rebuild-error", step, "BuildInternalDocForServerSeq(%d) [%s]: %v", info.ServerSeq, modes[k], err)
 			return
@@ -113,8 +176,26 @@ func (r *Run) checkCacheVsStore(ctx context.Context, info *database.DocInfo, ste
 			d.RootObject().Set("zz-mutated", p)
 		}
 	}
+	// an older sequence with the head in the cache, then the head again from the older entry
+	older := int64(0)
+	var gotOlder, gotBack string
+	if info.ServerSeq >= 2 {
+		older = 1 + int64((uint64(step)*2654435761+r.H.Seed*977)%uint64(info.ServerSeq-1))
+		d, err := r.recordedBuild(ctx, info, older)
+		if err != nil {
+			r.problem("server-rebuild-error", step, "BuildInternalDocForServerSeq(%d) with the head cached: %v", older, err)
+			return
+		}
+		gotOlder = d.Marshal()
+		d, err = r.recordedBuild(ctx, info, info.ServerSeq)
+		if err != nil {
+			r.problem("server-rebuild-error", step, "BuildInternalDocForServerSeq(%d) with %d cached: %v", info.ServerSeq, older, err)
+			return
+		}
+		gotBack = d.Marshal()
+	}
 	be.Cache.Snapshot.Purge()
-	d, err := packs.BuildInternalDocForServerSeq(ctx, be, info, info.ServerSeq)
+	d, err := r.recordedBuild(ctx, info, info.ServerSeq)
 	if err != nil {
 		r.problem("server-rebuild-error", step, "cold BuildInternalDocForServerSeq(%d): %v", info.ServerSeq, err)
 		return
@@ -125,6 +206,23 @@ func (r *Run) checkCacheVsStore(ctx context.Context, info *database.DocInfo, ste
 			r.problem("cache-served-differs", step, "BuildInternalDocForServerSeq(%d) [%s]: %s   from the store alone (cache purged): %s", info.ServerSeq, modes[k], got[k], want)
 			return
 		}
+	}
+	if older > 0 {
+		if gotBack != want {
+			r.problem("cache-served-differs", step, "BuildInternalDocForServerSeq(%d) [from the entry at %d]: %s   from the store alone (cache purged): %s", info.ServerSeq, older, gotBack, want)
+			return
+		}
+		be.Cache.Snapshot.Purge()
+		d, err := r.recordedBuild(ctx, info, older)
+		if err != nil {
+			r.problem("server-rebuild-error", step, "cold BuildInternalDocForServerSeq(%d): %v", older, err)
+			return
+		}
+		if w := d.Marshal(); gotOlder != w {
+			r.problem("cache-served-differs", step, "BuildInternalDocForServerSeq(%d) [older sequence, head cached]: %s   from the store alone (cache purged): %s", older, gotOlder, w)
+			return
+		}
+		be.Cache.Snapshot.Purge()
 	}
 }
 
